@@ -17,6 +17,7 @@ package field
 //@ define inv(e) = e.l0 <= B && e.l1 <= B && e.l2 <= B && e.l3 <= B && e.l4 <= B
 //@ define tight(e) = e.l0 < 2^51 + 2^18 && e.l1 < 2^51 + 2^13 && e.l2 < 2^51 + 2^13 && e.l3 < 2^51 + 2^13 && e.l4 < 2^51 + 2^13
 //@ define canon(e) = e.l0 <= M51 && e.l1 <= M51 && e.l2 <= M51 && e.l3 <= M51 && e.l4 <= M51 && lv(e) < P
+//@ define small(e) = e.l0 <= M51 && e.l1 <= M51 && e.l2 <= M51 && e.l3 <= M51 && e.l4 <= M51
 //@ define v128(x) = x.lo + x.hi*2^64
 //@ define eqlimbs(x, y) = x.l0 == y.l0 && x.l1 == y.l1 && x.l2 == y.l2 && x.l3 == y.l3 && x.l4 == y.l4
 //@ define iszero(e) = e.l0 == 0 && e.l1 == 0 && e.l2 == 0 && e.l3 == 0 && e.l4 == 0
@@ -203,7 +204,7 @@ package field
 //@   ensures [badlen] len(x) != 32 ==> isnil(result0) && !isnil(result1) && unchanged(*v)
 //@   ensures [ok] len(x) == 32 ==> result0 == v && isnil(result1)
 //@   ensures [value] len(x) == 32 ==> lv(v) == le(x, 32) % 2^255
-//@   ensures [limbs] len(x) == 32 ==> v.l0 <= M51 && v.l1 <= M51 && v.l2 <= M51 && v.l3 <= M51 && v.l4 <= M51
+//@   ensures [limbs] len(x) == 32 ==> small(v)
 
 //@ func (*Element).bytes(v, out)
 //@   mode bv
